@@ -526,6 +526,33 @@ pub fn run(cfg: &Cfg) -> Report {
         // beyond 2^16 chambers
         symbols.push(gen::strip_2d(cfg.tier.pick(65_540, 140_000), true));
     }
+    // rejected and abandoned parses between judged cases: texts of valid symbols whose *degree lists* are
+    // spoilt (one number too few or too many, a degree that is not a multiple of its orbit length), i.e. strings
+    // that fail late, after operations and part of the degrees have been accepted
+    {
+        let base: Vec<String> = symbols.iter().filter(|m| m.n >= 2 && m.n <= 12).step_by(41).take(600).map(|m| m.to_text()).collect();
+        let base = std::sync::Arc::new(base);
+        crate::monitor::set_poison(move |k| {
+            if base.is_empty() {
+                return;
+            }
+            let t = &base[(k as usize / 4) % base.len()];
+            let body = t.trim_end_matches('>');
+            let spoilt = match k % 4 {
+                0 => format!("{} 7>", body),
+                1 => match body.rfind(|c: char| c == ' ' || c == ',' || c == ':') {
+                    Some(p) => format!("{}>", &body[..p]),
+                    None => body.to_string(),
+                },
+                2 => match body.rfind(|c: char| c == ' ' || c == ',' || c == ':') {
+                    Some(p) => format!("{}1000003>", &body[..=p]),
+                    None => body.to_string(),
+                },
+                _ => format!("{},3>", body),
+            };
+            let _ = spoilt.parse::<PartialDSym>();
+        });
+    }
     let valid_texts: Vec<(String, usize)> = symbols.iter().filter(|m| m.n <= 400).step_by(cfg.tier.pick(23, 7)).map(|m| (m.to_text(), m.n)).collect();
     let ctx = par_items(cfg, &symbols, |ctx, k, m| {
         judge_round_trip(ctx, m);
@@ -594,6 +621,14 @@ pub fn run(cfg: &Cfg) -> Report {
         CHILD.with(|c| {
             let mut c = c.borrow_mut();
             let o = judge_string(ctx, &mut c, &s, "mutation");
+            if s == *valid {
+                // a text printed from a valid symbol is accepted whatever this thread parsed before (the
+                // preceding strings on this worker are mostly rejected ones)
+                ctx.count("valid_texts_parsed_between_rejected_strings");
+                if let Outcome::Err(e) = &o {
+                    ctx.violation("valid-text-rejected", "PartialDSym::from_str", json!({"string": s, "origin": "valid text parsed on a thread that parsed rejected strings before"}), json!({"error": e}), "the printed form of a valid symbol parses");
+                }
+            }
             if s != *valid {
                 ctx.nontrivial(digest_str(&s));
             }
@@ -602,6 +637,24 @@ pub fn run(cfg: &Cfg) -> Report {
             }
         });
         ctx.count("strings");
+    });
+    report.absorb(ctx);
+
+    // long rejected strings with one multi-byte character at every byte offset up to 420 after the first
+    // offending character (error paths that cut, quote or measure the unparsed rest of the input)
+    let tails: Vec<(usize, usize)> = (0..cfg.tier.pick(420, 1200)).flat_map(|off| (0..4).map(move |w| (off, w))).collect();
+    let ctx = par_items(cfg, &tails, |ctx, k, &(off, which)| {
+        let mut child = None;
+        let (valid, _) = &valid_texts[k % valid_texts.len()];
+        let wide = ["\u{e9}", "\u{2003}", "\u{1F600}", "\u{fc}\u{fc}"][which];
+        // the first offending character is '!', placed before, inside and after a valid text
+        for (j, head) in [String::from("!"), format!("{}!", valid), format!("{}!", &valid[..valid.len() / 2]), String::from("<1.1:!")].iter().enumerate() {
+            let filler: String = (0..off).map(|i| if j % 2 == 0 { 'x' } else { [' ', '1', ',', ':'][i % 4] }).collect();
+            let s = format!("{}{}{}{}", head, filler, wide, "y".repeat(40));
+            judge_string(ctx, &mut child, &s, "multi-byte character at a byte offset after the first offending character");
+            ctx.nontrivial(digest_str(&s));
+        }
+        ctx.count("long_rejected_strings_with_a_multibyte_character");
     });
     report.absorb(ctx);
 
@@ -634,7 +687,7 @@ pub fn run(cfg: &Cfg) -> Report {
     drop(child);
     report.absorb(ctx);
 
-    report.rule = "round trip: all 2D symbols on connected sets up to the size bound with v in 1..4, all 3D ones with v in 1..3, 1D ones, renumbered copies, the literature corpus, iterated double covers with up to ~1000 chambers and two-digit degrees, DSyms generator output; totality: valid texts, 1-2 token mutations of them (hostile numbers 0, size, size+1, 2^31, 2^63, 2^64, 10^11, ...; deleted/duplicated/swapped tokens; inserted separators and non-ASCII; duplicated sections; truncations), token soup, every prefix and suffix of valid texts, fixed hostile strings. Strings with a digit run >= 7 are parsed in a child process under a 3 GiB address-space limit so that an allocation abort is observed instead of killing the monitor. Non-trivial: symbol with >= 2 chambers and a non-identity operation (round trip); string different from every valid text (totality); distinct = distinct digests".into();
+    report.rule = "round trip: all 2D symbols on connected sets up to the size bound with v in 1..4, all 3D ones with v in 1..3, 1D ones, renumbered copies, the literature corpus, iterated double covers with up to ~1000 chambers and two-digit degrees, DSyms generator output; totality: valid texts (which must be accepted whatever the thread parsed before), long rejected strings with a multi-byte character at every byte offset up to 420 after the first offending character, 1-2 token mutations of them (hostile numbers 0, size, size+1, 2^31, 2^63, 2^64, 10^11, ...; deleted/duplicated/swapped tokens; inserted separators and non-ASCII; duplicated sections; truncations), token soup, every prefix and suffix of valid texts, fixed hostile strings. Strings with a digit run >= 7 are parsed in a child process under a 3 GiB address-space limit so that an allocation abort is observed instead of killing the monitor. Non-trivial: symbol with >= 2 chambers and a non-identity operation (round trip); string different from every valid text (totality); distinct = distinct digests".into();
     report.explanation = "round trip judged structurally against the model that generated the symbol; accepted strings judged by re-reading the returned symbol through op/v and checking involutions, range and degree consistency; outcome of every string is one of ok / err / panic / abort".into();
     report.assume("strings are sampled beyond the enumerated prefixes/suffixes; m = 0 degrees are multiples of every orbit length and are accepted");
     report.require_counter("round_trips", 1000);
